@@ -97,6 +97,7 @@ func (s *CDCStreamer) CommitHook() bool {
 	}
 	s.pending = &command.CDCIndexedEventGroup{
 		Events: make([]*command.CDCEvent, 0),
+		Index:  s.pending.Index,
 	}
 	return true
 }
